@@ -1,4 +1,181 @@
 """Twin oracles: the same library, run on a derived history in another pristine fork.
-Each function: (prop, ops, main_result, zygote, opts) -> list of violations."""
+Each function: (prop, ops, main_result, zygote, opts) -> list of violations.
 
-TWINS = {}
+Twins are exact because the library is deterministic; they need no model."""
+import json
+
+
+def _strip(ev):
+    return {k: v for k, v in ev.items() if k not in ('i',)}
+
+
+def _replay(z, prop, ops, opts):
+    o = dict(opts or {})
+    o['twin'] = True
+    return z.run({'mode': 'replay', 'property': prop, 'ops': ops, 'opts': o})
+
+
+def _first_diff(main_ops, main_events, twin_ops, twin_events):
+    """Compare events of the ops present in both (by 'id').  -> (position in main, main ev, twin ev) or None"""
+    pos = {op['id']: i for i, op in enumerate(main_ops)}
+    for op, evt in zip(twin_ops, twin_events):
+        i = pos[op['id']]
+        evm = main_events[i] if i < len(main_events) else None
+        if evm is None:
+            continue
+        a, b = _strip(evm), _strip(evt)
+        if a != b:
+            return i, a, b
+    return None
+
+
+def _diff_keys(a, b):
+    """Which parts of two OBS payloads differ (for a readable detail)."""
+    out = []
+    va, vb = a.get('v'), b.get('v')
+    if isinstance(va, dict) and isinstance(vb, dict):
+        for k in sorted(set(va) | set(vb)):
+            if va.get(k) != vb.get(k):
+                out.append(k)
+    return out
+
+
+def _short(x, n=400):
+    s = json.dumps(x, sort_keys=True, default=str)
+    return s if len(s) <= n else s[:n] + '...'
+
+
+# ---------------------------------------------------------------------------------- C10: erasure of failed calls
+def twin_erase_failed(prop, ops, main, z, opts):
+    ev = main['events']
+    failed = [i for i, e in enumerate(ev) if e['r'] == 'exc' and ops[i]['op'] not in ('OBS',)]
+    if not failed:
+        return []
+    keep = [op for i, op in enumerate(ops) if i >= len(ev) or ev[i]['r'] != 'exc']
+    twin = _replay(z, prop, keep, opts)
+    d = _first_diff(ops, ev, keep, twin['events'])
+    if d is None:
+        return []
+    i, a, b = d
+    prev_failed = [j for j in failed if j < i]
+    culprit = ops[prev_failed[-1]] if prev_failed else None
+    kind = culprit['op'] if culprit else '?'
+    if ops[i]['op'] == 'OBS':
+        clause = 'state-changed-by-failed-call'
+        detail = {'failed_op': kind, 'failed_at': prev_failed[-1] if prev_failed else None, 'differs': _diff_keys(a, b),
+                  'with_failed_call': _short(_pick(a, b)[0]), 'without': _short(_pick(a, b)[1])}
+    else:
+        clause = 'later-outcome-differs-after-failed-call'
+        detail = {'failed_op': kind, 'failed_at': prev_failed[-1] if prev_failed else None, 'op': ops[i]['op'],
+                  'with_failed_call': _short(a), 'without': _short(b)}
+    return [{'property': prop, 'clause': clause, 'at': i, 'detail': detail}]
+
+
+def _pick(a, b):
+    va, vb = a.get('v'), b.get('v')
+    if isinstance(va, dict) and isinstance(vb, dict):
+        ks = [k for k in sorted(set(va) | set(vb)) if va.get(k) != vb.get(k)]
+        return {k: va.get(k) for k in ks}, {k: vb.get(k) for k in ks}
+    return a, b
+
+
+# ---------------------------------------------------------------------------------- C16: erasure of reader ops
+def twin_erase_readers(prop, ops, main, z, opts):
+    ev = main['events']
+    readers = [i for i, op in enumerate(ops) if op.get('reader')]
+    if not readers:
+        return []
+    keep = [op for op in ops if not op.get('reader')]
+    twin = _replay(z, prop, keep, opts)
+    d = _first_diff(ops, ev, keep, twin['events'])
+    if d is None:
+        return []
+    i, a, b = d
+    prev = [j for j in readers if j < i]
+    ics = sorted({bool(ops[j].get('ic')) for j in prev if ops[j]['op'] in ('TO_STRING', 'CHECK')})
+    kinds = sorted({ops[j]['op'] + ('[ic]' if ops[j].get('ic') else '') for j in prev})
+    clause = 'read-changed-later-result[ic]' if True in ics else 'read-changed-later-result'
+    detail = {'reads_before': kinds, 'op': ops[i]['op'], 'differs': _diff_keys(a, b),
+              'with_reads': _short(_pick(a, b)[0]), 'without': _short(_pick(a, b)[1])}
+    return [{'property': prop, 'clause': clause, 'at': i, 'detail': detail}]
+
+
+# ---------------------------------------------------------------------------------- C13 / C14: projection
+def _doc_of(op):
+    if 'p' in op:
+        return op['p'][0]
+    return op.get('doc')
+
+
+def lineage(ops, doc):
+    """Ops of one document: its own operations plus, for copies / parsed documents, the source's
+    operations up to the point of derivation."""
+    derive = {}
+    for i, op in enumerate(ops):
+        if op['op'] == 'DEEPCOPY':
+            derive[op['doc']] = (op['p'][0], i)
+    need = {}
+
+    def add(d, upto):
+        need[d] = max(need.get(d, -1), upto)
+        if d in derive:
+            src, i = derive[d]
+            add(src, min(i, upto))
+    add(doc, len(ops))
+    out = []
+    for i, op in enumerate(ops):
+        if op['op'] in ('FAULT',):
+            out.append(op)
+            continue
+        d = _doc_of(op)
+        if op['op'] == 'DEEPCOPY':
+            # belongs to the copy's lineage (reads the source)
+            if op['doc'] in need and i <= need[op['doc']]:
+                out.append(op)
+            continue
+        if d in need and i <= need[d]:
+            out.append(op)
+    return out
+
+
+def twin_projection(prop, ops, main, z, opts):
+    ev = main['events']
+    docs = []
+    for op in ops:
+        d = op.get('doc') if op['op'] in ('NEW', 'DEEPCOPY', 'PARSE') else None
+        if d and d not in docs:
+            docs.append(d)
+    if len(docs) < 2:
+        return []
+    out = []
+    for d in docs:
+        sub = lineage(ops, d)
+        if len(sub) == len(ops):
+            continue
+        twin = _replay(z, prop, sub, opts)
+        diff = _first_diff(ops, ev, sub, twin['events'])
+        if diff is None:
+            continue
+        i, a, b = diff
+        is_canary = str(d).startswith('canary')
+        if prop == 'C14':
+            clause = 'copy-not-independent'
+        elif is_canary:
+            clause = 'fresh-instance-differs'
+        elif ops[i]['op'] == 'OBS':
+            clause = 'other-instance-changed'
+        else:
+            clause = 'outcome-depends-on-neighbour'
+        out.append({'property': prop, 'clause': clause, 'at': i,
+                    'detail': {'doc': d, 'op': ops[i]['op'], 'differs': _diff_keys(a, b),
+                               'together': _short(_pick(a, b)[0]), 'alone': _short(_pick(a, b)[1])}})
+        break
+    return out
+
+
+TWINS = {
+    'C10': twin_erase_failed,
+    'C16': twin_erase_readers,
+    'C13': twin_projection,
+    'C14': twin_projection,
+}
